@@ -73,9 +73,22 @@ def effective(fields, plugin):
     return f
 
 
+# with an extension in force, two thirds of the programs run inside the body
+# of a block construct (one in which an error still ends the script): what the
+# run was given governs the instruction wherever it stands
+BLOCKS = (None, 'IF', 'THEN', 'ELSE', 'EXCEPT', 'LOOP', 'CALL', 'EVAL', None,
+          'IF', 'ELSE', 'EXCEPT')
+
+
 def run(prog, cache, plugin=None):
     functions = env.mods()[0]
     Ext.calls = 0
+    if plugin:
+        from . import c09
+        blk = BLOCKS[hashlib.blake2b(prog, digest_size=2).digest()[0]
+                     % len(BLOCKS)]
+        if blk:
+            prog = c09.place((blk,), prog)
     try:
         if plugin:
             _, stack, _ = functions.run_script(
